@@ -1086,6 +1086,7 @@ func gen(c *core.Ctx) error {
 	}
 	genDoubles(c)
 	genAPIs(c)
+	genHuge(c)
 	for _, a := range core.SortedKeys(called) {
 		c.CountN("api-"+a, called[a])
 	}
@@ -1334,9 +1335,33 @@ func replay(raw json.RawMessage) error {
 		Vals  []val      `json:"vals"`
 		Cuts  []int      `json:"cuts"`
 		Pairs [][2]int64 `json:"pairs"`
+		API   string     `json:"api"`
+		N     int        `json:"n"`
 	}
 	if err := json.Unmarshal(raw, &d); err != nil {
 		return err
+	}
+	if d.Kind == "huge-string" {
+		buf := bytes.Repeat([]byte{'a'}, d.N)
+		st := &countingStream{enc: d.Enc}
+		m := message.NewMessageForStream(st)
+		_ = m.PutChar(ctx, 0x3c)
+		var err error
+		switch d.API {
+		case "PutStringBytes":
+			err = m.PutStringBytes(ctx, buf)
+		case "PutString":
+			err = m.PutString(ctx, string(buf))
+		default:
+			s := string(buf)
+			err = m.CodeString(ctx, &s)
+		}
+		_ = m.PutChar(ctx, 0x3e)
+		_ = m.FinishMessage(ctx)
+		if msg := hugeVerdict(d.Enc, d.N, err, st); msg != "" {
+			return fmt.Errorf("%s", msg)
+		}
+		return nil
 	}
 	if d.Kind == "dec-pairs" {
 		var data []byte
